@@ -67,6 +67,31 @@ FOREIGN_TAGS = [("py2", "none", "any"), ("cp313", "cp313", "manylinux_2_17_x86_6
                 ("cp313", "abi3", "linux_x86_64"), ("cp313", "none", "any"), ("cp313.cp314", "none", "any"),
                 ("py313", "none", "any"), ("cp314", "abi3", "manylinux_2_17_x86_64"), ("cp320", "none", "any"),
                 ("py313.py314", "none", "any"), ("cp313", "abi3", "manylinux2014_x86_64")]
+def _host_glibc_tags() -> Tuple[List[Tuple[str, str, str]], List[Tuple[str, str, str]]]:
+    """platform tags at, just below and just above the host's glibc for the host architecture (the newest
+    manylinux_2_N_<arch> tag packaging.tags.sys_tags() lists), plus the legacy aliases"""
+    import re
+    import packaging.tags as PT
+    best = None
+    for t in PT.sys_tags():
+        m = re.fullmatch(r"manylinux_(\d+)_(\d+)_(.+)", t.platform)
+        if m and (best is None or (int(m.group(1)), int(m.group(2))) > best[:2]):
+            best = (int(m.group(1)), int(m.group(2)), m.group(3))
+    if best is None:
+        return [], []
+    ma, mi, arch = best
+    at, below, above = ("manylinux_%d_%d_%s" % (ma, n, arch) for n in (mi, mi - 1, mi + 1))
+    good = [("cp312", "cp312", at), ("py3", "none", at), ("cp312", "abi3", below), ("cp312", "cp312", at + "." + below),
+            ("py3", "none", "manylinux1_" + arch), ("cp312", "cp312", "manylinux2010_" + arch), ("cp312", "abi3", "manylinux2014_" + arch),
+            ("cp312", "cp312", at)]
+    foreign = [("cp312", "cp312", above), ("py3", "none", above), ("cp312", "abi3", "manylinux_%d_%d_%s" % (ma + 1, 0, arch)),
+               ("cp312", "cp312", "manylinux_%d_%d_%s" % (ma, mi + 10, arch))]
+    return good, foreign
+
+
+_G, _F = _host_glibc_tags()
+GOOD_TAGS += _G
+FOREIGN_TAGS += _F
 BUILD_TAGS = ["", "", "", "", "1", "2", "1a", "10", "1_x"]
 SDIST_EXT = [".tar.gz", ".tar.gz", ".zip", ".tgz", ".tar.bz2"]
 BUDGETS = [None, None, 0, 1, 1, 2, 2, 3, 3, -1]
@@ -216,7 +241,7 @@ def gen_focus_case(rng) -> Dict[str, Any]:
         shape = rng.choice(["w", "w", "s", "s", "ws", "ws", "ww", "wws"])
         for k, ch in enumerate(shape):
             if ch == "w":
-                py, abi, plat = rng.choice(GOOD_TAGS[:6]) if rng.random() < 0.85 else rng.choice(FOREIGN_TAGS)
+                py, abi, plat = rng.choice(GOOD_TAGS[:6] + _G[:3]) if rng.random() < 0.85 else rng.choice(FOREIGN_TAGS)
                 bt = rng.choice(["", "", "1", "2"])
                 files.append("-".join(["foo_bar", v] + ([bt] if bt else []) + [py, abi, plat]) + ".whl")
             else:
@@ -225,7 +250,10 @@ def gen_focus_case(rng) -> Dict[str, Any]:
     p = rng.choice([0.2, 0.4, 0.6, 0.8])
     lo = min(majors)
     req = "foo-bar" + rng.choice(["", "", "", ">=%d.0" % lo, "<%d" % max(majors), ">=%d.0rc1" % lo, "!=%d.0" % max(majors),
-                                   "==%d.0rc1" % rng.choice(majors), "==%d.*" % rng.choice(majors)])
+                                   "==%d.0rc1" % rng.choice(majors), "==%d.*" % rng.choice(majors),
+                                   ">=%d.0.dev1" % max(majors), ">=%d.0.dev1" % rng.choice(majors),
+                                   "<%d.0.dev9,>%d.5" % (max(majors) + 1, max(majors) - 1),
+                                   ">%d.5,<%d.0.dev9" % (lo - 1, max(majors))])
     return {"files": files, "unreadable": sorted({f for f in files if rng.random() < p}), "req": req,
             "allow_pre": rng.random() < 0.25, "allow_src": rng.random() < 0.5,
             "budget": rng.choice([None, 1, 2, 2, 2, 3, 3]), "source_cands": 0}
@@ -577,6 +605,17 @@ def oracle(mods, case: Dict[str, Any]) -> Optional[str]:
     if any(good(x) for x in first) and not cut(first):
         g = [x for x in first if good(x)][0]
         return f"NoCandidate although {g.filename} is eligible, readable and within the budget"
+    # nothing but pre-releases can satisfy: the documented triggers of the pre-release pass are a requirement that
+    # mentions a pre-release version (a/b/rc or .devN, PEP 440) or a listing that holds nothing but pre-releases
+    second = pool(True)
+    mentions = [sp.version for sp in req.specifier if not sp.version.endswith(".*") and Version(sp.version).is_prerelease]
+    all_pre = all(c.version.is_prerelease for c in cands)
+    if (not any(good(x) for x in first) and not cut(first) and any(good(x) for x in second) and not cut(second)
+            and (mentions or all_pre)):
+        g = max((x for x in second if good(x)), key=lambda x: x.version)
+        trig = ("the requirement mentions the pre-release " + mentions[0]) if mentions else "only pre-releases are listed"
+        return (f"NoCandidate although no final version can satisfy the request, {trig} and the pre-release "
+                f"{g.filename} is eligible, readable and within the budget")
     return None
 
 
